@@ -235,6 +235,94 @@ sys.exit(1 if a != b else 0)
 '''
 
 
+
+# ---- a model under construction while something else happens in the process -------------------------------------------------------
+
+def _other_started():
+    Model()
+
+
+def _other_half_built():
+    m2 = Model(); c2 = Country(m2, 'ZZ', currency='ZED'); Sector(c2, 'S1'); Sector(c2, 'S2')
+
+
+def _other_solver():
+    o = EquationSolver(OTHER); o.SolveEquation()
+
+
+INTERRUPTIONS = {'other-model-started': _other_started, 'other-model-half-built': _other_half_built, 'other-model-built-and-solved': build_other_model,
+                 'other-solver-solved': _other_solver}
+INTERLEAVE_PLANS = {'quick': ['sim', 'sim_caps_margin', 'pc', 'samezone_crossdemand', 'xz_gift_both', 'xz_imports', 'reg2', 'fed1'], 'thorough': None}
+
+
+def interleave_work(item):
+    """The system emitted for a topology must not depend on what else was built in the process while it was being declared."""
+    from vf import zoo as Z
+    from vf.emit import emit
+    from vf.zoolib import compare_systems, param_names
+    plan, order, tag = item
+    rec = {'plan': plan.name, 'order': order, 'order_tag': tag, 'obs': [], 'solver_s': 0.0, 'queries': 0, 'builds': 0}
+    with StubRender():
+        ctx0 = Z.build(plan, order=order)
+        em0 = emit(ctx0)
+        if not em0.text:
+            rec['build_error'] = repr(em0.err)
+            return rec
+        params = param_names(plan, ctx0, em0)
+        n = len(plan.decls)
+        for pos in range(1, n + 2):
+            for iname in sorted(INTERRUPTIONS):
+                rec['builds'] += 1
+                try:
+                    em = emit(Z.build(plan, order=order, interrupt=(pos, INTERRUPTIONS[iname])))
+                    err = em.err if not em.text else None
+                except Exception as ex:
+                    err = ex
+                what = '%s (order %s) with %s after %d declarations == undisturbed build' % (plan.name, tag, iname, pos)
+                if err is not None:
+                    rec['obs'].append({'kind': 'builds', 'what': what + ': raises %r' % (err,), 'verdict': 'sat', 'pos': pos, 'iname': iname})
+                    continue
+                if em.text == em0.text:
+                    rec['obs'].append({'kind': 'identical-text', 'what': what, 'verdict': 'unsat', 'pos': pos, 'iname': iname})
+                    continue
+                obs, D = compare_systems(em0.parser, em.parser, params)
+                rec['solver_s'] += D.solver_s
+                rec['queries'] += D.queries
+                for ob in obs:
+                    ob.update(pos=pos, iname=iname, what=what + ': ' + ob['what'])
+                    rec['obs'].append(ob)
+    return rec
+
+
+REPLAY_INTERLEAVE = '''
+import sys
+from vf.replaylib import get_plan
+from vf import zoo as Z
+from vf.emit import emit
+from vf.props.c17 import INTERRUPTIONS
+plan = get_plan(%(plan)r); order = %(order)r
+base = emit(Z.build(plan, order=order), maxtime=3)
+try:
+    dist = emit(Z.build(plan, order=order, interrupt=(%(pos)d, INTERRUPTIONS[%(iname)r])), maxtime=3)
+except Exception as e:
+    print('disturbed build raises', repr(e)); sys.exit(1)
+if base.err is not None:
+    print('undisturbed build fails', repr(base.err)); sys.exit(0)
+if dist.err is not None:
+    print('disturbed build: Model.main() raises', repr(dist.err)); sys.exit(1)
+A = dict(list(base.parser.Endogenous) + list(base.parser.Decoration)); B = dict(list(dist.parser.Endogenous) + list(dist.parser.Decoration))
+print('%(iname)s after %(pos)d declarations of', plan.name)
+if set(A) != set(B):
+    print('variables differ: only undisturbed', sorted(set(A) - set(B))[:6], 'only disturbed', sorted(set(B) - set(A))[:6]); sys.exit(1)
+ta, tb = base.ctx.model.EquationSolver.TimeSeries, dist.ctx.model.EquationSolver.TimeSeries
+bad = [v for v in ta if v not in tb or list(ta[v]) != list(tb[v])]
+for v in bad[:5]: print(v, list(ta[v]), 'vs', list(tb.get(v, [])))
+diff = [v for v in A if ''.join(A[v].split()) != ''.join(B[v].split())]
+for v in diff[:5]: print('equation of', v, ':', A[v], ' | ', B[v])
+sys.exit(1 if (bad or diff) else 0)
+'''
+
+
 def id_offsets():
     """FinalEquations built at several values of the process-wide object counter must be textually equal."""
     from vf import zoo as Z
@@ -290,6 +378,29 @@ def run(tier, seed):
         if len(chk.samples) < 10:
             chk.sample({'history': o['hist'], 'paths': o['paths'], 'verdict': 'identical result terms on every path' if not o['viol'] else o['viol']['why']})
     chk.witness(chk.counters.get('solved_paths', 0) > 0, 'target solve returns on some path')
+    from vf import zoo as Z
+    from vf.zoolib import plan_orders
+    plans = Z.zoo(tier)
+    if INTERLEAVE_PLANS[tier]:
+        plans = [p for p in plans if p.name in INTERLEAVE_PLANS[tier]]
+    items = plan_orders(plans, 'quick')
+    chk.bounds['construction interleavings'] = ('%d topologies x declaration orders (canonical, markets-first) x every construction point x %r: emitted system equivalent '
+                                                'to the undisturbed build (identical text, else z3 system equivalence)' % (len(plans), sorted(INTERRUPTIONS)))
+    for st, rec in pmap(interleave_work, items):
+        if st != 'ok':
+            chk.harness_errors.append(rec[:800])
+            continue
+        if 'build_error' in rec:
+            chk.harness_errors.append('undisturbed build of %s fails: %s' % (rec['plan'], rec['build_error']))
+            continue
+        chk.solver_s += rec['solver_s']; chk.queries += rec['queries']
+        chk.count('interleaved_builds', rec['builds'])
+        for ob in rec['obs']:
+            chk.ob(ob['verdict'], ob['what'], distinct=('interleave', rec['plan'], rec['order_tag'], ob['pos'], ob['iname'], ob['kind'], ob.get('var')))
+            if ob['verdict'] == 'sat':
+                chk.violation('interleave:%s:%s' % (rec['plan'], ob['iname']), ob['what'] + ' ' + str(ob.get('structural', '')),
+                              REPLAY_INTERLEAVE % dict(plan=rec['plan'], order=rec['order'], pos=ob['pos'], iname=ob['iname']))
+    chk.sample({'harness': 'construction interleavings', 'builds': chk.counters.get('interleaved_builds', 0), 'post': 'emitted system == undisturbed build'})
     n, bad = id_offsets()
     chk.obligations += n
     chk.discharged += n - len(bad)
